@@ -60,9 +60,12 @@ def create_mcmc(joint, parameters, parameters_unres, arg):
     }
 
     for param in parameters_unres:
-        if param["id"].endswith("theta.log") and arg.coalescent in (
-            "skygrid",
-            "piecewise-constant",
+        # the block-updating operator needs the precision parameter of the GMRF,
+        # which does not exist when it is integrated out
+        if (
+            param["id"].endswith("theta.log")
+            and arg.coalescent in ("skygrid", "piecewise-constant")
+            and not arg.gmrf_integrated
         ):
             operator = create_block_updating_operator(
                 param["id"], "gmrf", "coalescent", arg
